@@ -7,6 +7,10 @@ import (
 
 // parse and return tag and length, also the length of two parts
 func parseTagAndLength(bytes []byte) (r tagAndLen, off int, e error) {
+	if len(bytes) == 0 {
+		e = fmt.Errorf("no data to parse")
+		return r, off, e
+	}
 	off++
 	r.class = int(bytes[0] >> 6)
 	r.constructed = (bytes[0] & 0x20) != 0
@@ -35,29 +39,44 @@ func parseTagAndLength(bytes []byte) (r tagAndLen, off int, e error) {
 		r.len = int64(bytes[off])
 		off++
 	} else {
-		len := int(bytes[off] & 0x7f)
-		// fmt.Println("len", len)
-		if len > 3 {
+		lenOctets := int(bytes[off] & 0x7f)
+		if lenOctets > 3 {
 			e = fmt.Errorf("length is too large")
 			return r, off, e
 		}
+		if lenOctets == 0 {
+			e = fmt.Errorf("indefinite length is not supported")
+			return r, off, e
+		}
 		off++
+		if off+lenOctets > len(bytes) {
+			e = fmt.Errorf("length octets out of range")
+			return r, off, e
+		}
 		var val int64
-		val, e = parseInt64(bytes[off : off+len])
+		val, e = parseInt64(bytes[off : off+lenOctets])
 		if e != nil {
 			return r, off, e
 		}
-		// fmt.Println("bytes[off : off+len]", bytes[off : off+len], "val", val)
 
 		r.len = int64(val)
-		off += len
+		off += lenOctets
 	}
 
 	return r, off, e
 }
 
 func parseBitString(bytes []byte) (r BitString, e error) {
-	r.BitLength = uint64((len(bytes)-1)*8 - int(bytes[0]))
+	if len(bytes) == 0 {
+		e = fmt.Errorf("BIT STRING without the unused-bits octet")
+		return r, e
+	}
+	unused := int(bytes[0])
+	if unused > 7 || (len(bytes) == 1 && unused != 0) {
+		e = fmt.Errorf("BIT STRING unused-bits count out of range")
+		return r, e
+	}
+	r.BitLength = uint64((len(bytes)-1)*8 - unused)
 	r.Bytes = bytes[1:]
 	return
 }
@@ -132,7 +151,10 @@ func ParseField(v reflect.Value, bytes []byte, params fieldParameters) error {
 	}
 	switch val := v; val.Kind() {
 	case reflect.Bool:
-		if parsedBool, parse_err := parseBool(bytes[talOff]); err != nil {
+		if talOff >= len(bytes) {
+			return fmt.Errorf("BOOLEAN without content")
+		}
+		if parsedBool, parse_err := parseBool(bytes[talOff]); parse_err != nil {
 			return parse_err
 		} else {
 			val.SetBool(parsedBool)
@@ -150,6 +172,9 @@ func ParseField(v reflect.Value, bytes []byte, params fieldParameters) error {
 		structType := fieldType
 		var structParams []fieldParameters
 
+		if structType.NumField() == 0 {
+			return fmt.Errorf("unsupported: " + v.Type().String())
+		}
 		if structType.Field(0).Name == "Value" {
 			// Non struct type
 			// fmt.Println("Non struct type")
@@ -235,7 +260,7 @@ func ParseField(v reflect.Value, bytes []byte, params fieldParameters) error {
 					if params.openType {
 						return fmt.Errorf("OpenType is not implemented")
 					}
-					if *structParams[current].tagNumber == talNow.tagNumber {
+					if structParams[current].tagNumber != nil && *structParams[current].tagNumber == talNow.tagNumber {
 						if err = ParseField(val.Field(current), bytes[offset:next], structParams[current]); err != nil {
 							return err
 						}
@@ -265,7 +290,7 @@ func ParseField(v reflect.Value, bytes []byte, params fieldParameters) error {
 					if params.openType {
 						return fmt.Errorf("OpenType is not implemented")
 					}
-					if *structParams[current].tagNumber == talNow.tagNumber {
+					if structParams[current].tagNumber != nil && *structParams[current].tagNumber == talNow.tagNumber {
 						if parse_err1 := ParseField(val.Field(current), bytes[offset:next], structParams[current]); parse_err1 != nil {
 							return parse_err1
 						}
